@@ -57,7 +57,22 @@ def check(run, prog, tier):
     # ---- C14-b
     fm = run.need(comm.funcs.get("flush_message"), "flush_message")
     run.saw(fm)
-    lens = [(b, i, n) for b, i, n in fm.nodes() if n.get("k") == "Asg" and n.get("op") == "=" and strip(n["L"]).get("n") == "length"]
+    # the chunk length is whatever is handed to send()/write() as the byte count; it may be computed by a file-local helper
+    snd0 = [(b, i, n) for b, i, n in fm.calls() if n.get("fn") in ("send", "write", "sendto") and len(n.get("args", [])) >= 3 and any(fld(x, "message_buf") for x in walk(n["args"][1]))]
+    run.need(snd0, "send()/write() of message_buf in flush_message")
+    lv = strip(snd0[0][2]["args"][2])
+    run.need(lv.get("k") == "Ref" and lv.get("id") is not None, "a local as the byte count of the send")
+    LF, lvid = fm, lv.get("id")
+    ldefs = [n for b, i, n in fm.nodes() if n.get("k") == "Asg" and n.get("op") == "=" and strip(n["L"]).get("k") == "Ref" and strip(n["L"]).get("id") == lvid]
+    if len(ldefs) == 1 and strip(ldefs[0]["R"]).get("k") == "Call" and comm.funcs.get(strip(ldefs[0]["R"]).get("fn")) is not None and comm.funcs[strip(ldefs[0]["R"])["fn"]].static:
+        hf = comm.funcs[strip(ldefs[0]["R"])["fn"]]
+        rets = {strip(n["e"]).get("id") for b, i, n in hf.nodes() if n.get("k") == "Return" and isinstance(n.get("e"), dict) and strip(n["e"]).get("k") == "Ref"}
+        if len(rets) == 1 and None not in rets:
+            LF, lvid = hf, rets.pop()
+            run.saw(hf)
+            run.note("flush_message takes the chunk length from %s()" % hf.name)
+    fm_, fm = fm, LF          # the chunk-length clauses below are about the function that computes it
+    lens = [(b, i, n) for b, i, n in fm.nodes() if n.get("k") == "Asg" and n.get("op") == "=" and strip(n["L"]).get("k") == "Ref" and strip(n["L"]).get("id") == lvid]
     run.need(len(lens) >= 2, "chunk length assignments in flush_message")
     okl = True
     unrec = False
@@ -73,7 +88,7 @@ def check(run, prog, tier):
         elif r.get("k") == "Bin" and r.get("op") == "-" and const_val(r["L"]) == SIZE and fld(r["R"], "message_consumer"):
             good = ge
             why.append("SIZE-consumer under consumer>=producer: %s" % ge)
-        elif any(op == ">" and strip(l).get("n") == "length" and show(strip(rr)) == show(r) for op, l, rr in g):
+        elif any(op == ">" and strip(l).get("id") == lvid and show(strip(rr)) == show(r) for op, l, rr in g):
             # `if (length > E) length = E;` only shortens a chunk that was contiguous already
             good = True
             why.append("clamp `%s` under length > %s: a shorter prefix of the contiguous chunk" % (show(n), show(r)))
@@ -86,7 +101,8 @@ def check(run, prog, tier):
             unrec = True
             why.append("chunk length %s is not one of the two field-level forms (not decided)" % show(n))
         okl = okl and good
-    run.ob("C14-b", "chunk-length", (None if unrec else True) if okl else False, "; ".join(why), fm.file, lens[0][2].get("l"), "flush_message", what="flush_message sends a chunk that is not the contiguous unsent part of the ring: " + "; ".join(why))
+    run.ob("C14-b", "chunk-length", (None if unrec else True) if okl else False, "; ".join(why), fm.file, lens[0][2].get("l"), fm.name, what="flush_message sends a chunk that is not the contiguous unsent part of the ring: " + "; ".join(why))
+    fm = fm_
     cons = [(b, i, n) for b, i, n in fm.nodes() if n.get("k") == "Asg" and fld(n["L"], "message_consumer")]
     dec = [(b, i, n) for b, i, n in fm.nodes() if n.get("k") == "Asg" and fld(n["L"], "message_length")]
     okc = len(cons) == 1
